@@ -65,6 +65,19 @@ Theorem C15_clone_pair_WF : forall t ops1 ops2,
 Proof. exact clone_pair_WF. Qed.
 Print Assumptions C15_clone_pair_WF.
 
+(* Local search with rollback (different-datatype search, search on calls): when no attempt
+   improves the objective the test case is exactly what it was, whatever the factory did in between
+   (e.g. inserted dependency statements); otherwise it is the accepted, well-formed proposal. *)
+Theorem C15_local_search_rejected_restores : forall t atts,
+  WF t -> snd (ls_search t atts) = false -> fst (ls_search t atts) = t.
+Proof. exact ls_rejected_restores. Qed.
+Print Assumptions C15_local_search_rejected_restores.
+
+Theorem C15_local_search_WF : forall t atts,
+  WF t -> Forall (fun a => WF (fst a)) atts -> WF (fst (ls_search t atts)).
+Proof. exact ls_search_WF. Qed.
+Print Assumptions C15_local_search_WF.
+
 (* Crossover (splice_test_case_chromosomes), for every pair of split points and every outcome of
    the random choices: the offspring is well-formed, and it is either shorter than the configured
    maximum or the parent is kept unchanged. *)
